@@ -590,6 +590,10 @@ def is_seq_term(t) -> bool:
 
 
 def proj_sub(obj, idx):
+    if idx[0] == "slice" and idx[1] == C(0) and idx[3] in (NONE, C(1)):
+        idx = ("slice", NONE, idx[2], NONE)      # x[0:k] is x[:k]
+    elif idx[0] == "slice" and idx[3] == C(1):
+        idx = ("slice", idx[1], idx[2], NONE)
     if is_const(idx) and isinstance(idx[1], int) and not isinstance(idx[1], bool):
         # xs[a:][k] is xs[a + k] for non-negative a, k
         if idx[1] >= 0 and obj[0] == "sub" and obj[2][0] == "slice" and is_const(obj[2][1]) and isinstance(obj[2][1][1], int) \
@@ -2129,6 +2133,31 @@ class Interp:
         def build(gi, env):
             g = gens[gi]
             it = self.ev(g.iter, env, ctx)
+            if it[0] in ("tuple", "list") and not any(x[0] == "star" for x in it[1]) and not g.ifs and len(it[1]) <= 24:
+                # over a literal sequence the comprehension is its elements, each evaluated with the target bound to
+                # the actual item (so that calls inside see literal arguments: f(x, *pair, flag=i == n))
+                tn_ = {n.id for n in ast.walk(g.target) if isinstance(n, ast.Name)}
+                needs_late = gi + 1 == len(gens) and _late_bound_rewrite([elt], tn_)[1]
+                if not needs_late:
+                    out_, ok_ = [], True
+                    n0_ = len(self.guards)
+                    try:
+                        for x in it[1]:
+                            e3 = Env(env)
+                            self.assign(g.target, x, e3, ctx)
+                            if gi + 1 < len(gens):
+                                sub_ = build(gi + 1, e3)
+                                if sub_[0] != "list":
+                                    ok_ = False
+                                    break
+                                out_.extend(sub_[1])
+                            else:
+                                out_.append(self.ev(elt, e3, ctx))
+                    except AnalysisError:
+                        ok_ = False
+                    if ok_:
+                        return ("list", tuple(out_))
+                    del self.guards[n0_:]
             d = self.depth
             e2 = Env(env)
             self.assign(g.target, ("bv", d, 0), e2, ctx)
@@ -2706,6 +2735,9 @@ class Interp:
             r = range(*[x[1] for x in a])
             if len(r) <= 64:
                 return ("tuple", tuple(C(i) for i in r))
+        if q == "itertools.pairwise" and len(a) == 1 and self._is_lit(a[0]) and not kwargs:
+            xs_ = a[0][1]
+            return ("tuple", tuple(("tuple", (xs_[i], xs_[i + 1])) for i in range(len(xs_) - 1)))
         if q == "builtins.reversed" and len(a) == 1 and self._is_lit(a[0]):
             return ("tuple", tuple(reversed(a[0][1])))
         if q == "builtins.zip" and a and any(self._is_lit(x) for x in a):
